@@ -2,6 +2,7 @@ import TcheranVerif.Props.C03
 import TcheranVerif.Model.Rules
 import TcheranVerif.Proofs.LegalMoveFacts
 import TcheranVerif.Proofs.MakeTotal
+import TcheranVerif.Proofs.GameInv
 /-!
 # C02 — making and unmaking moves is exactly reversible; the three board views never disagree
 
@@ -24,6 +25,9 @@ import TcheranVerif.Proofs.MakeTotal
 * `make_move_legal_total` — in every position meeting `PosH` (one king, e.p. target and rights consistent
   with the placement, views in agreement) and for **every** legal move of the rules, `make_move` answers (no
   `unwrap` on an empty square, no missing rook, no square off the board) with exactly `Rules.apply`.
+* `game_refines` — the same along every game: legal positions are closed under legal moves (`ginv_apply`),
+  so from a legal start every position reached by legal moves is produced by `make_move`, equals the rules'
+  position, and keeps the three views in agreement.
 -/
 namespace Tcheran.Props.C02
 open Tcheran Board Game Tcheran.Props.C03
@@ -132,6 +136,13 @@ theorem make_move_legal_total (c : Cfg) (g : Game) (k : Sq) (h : PosH g k) (mv :
     ∃ g', makeMove c g mv = some g' ∧ Rules.ofGame g' = Rules.apply (Rules.ofGame g) mv :=
   Tcheran.make_move_legal_total c g k h mv hl
 
+/-- **game_refines**: along every game of legal moves from a position satisfying the invariant,
+`make_move` answers at every step with the rules' position, and the three views keep agreeing -/
+theorem game_refines (c : Cfg) (g : Game) (ms : List Move) (pos' : Rules.Pos) (hc : g.board.Consistent)
+    (h : GInv (Rules.ofGame g)) (hp : LegalPath (Rules.ofGame g) ms pos') :
+    ∃ g', makeMoves c g ms = some g' ∧ Rules.ofGame g' = pos' ∧ g'.board.Consistent ∧ GInv (Rules.ofGame g') :=
+  Tcheran.game_refines c g ms pos' hc h hp
+
 /-- non-vacuity: a quiet knight move from an (otherwise empty) consistent board satisfies `MoveOk` -/
 example : MoveOk (Game.fromState theCfg (Board.empty.setAt B1 ⟨.knight, .white⟩) .white Rights.none none 0 0)
     (Move.quiet B1 C3) := by
@@ -153,3 +164,4 @@ end Tcheran.Props.C02
 #print axioms Tcheran.Props.C02.make_refines
 #print axioms Tcheran.Props.C02.make_refines_legal
 #print axioms Tcheran.Props.C02.make_move_legal_total
+#print axioms Tcheran.Props.C02.game_refines
